@@ -82,7 +82,37 @@ fn msg_kind(m: &Message<'_>) -> &'static str {
 }
 
 /// A reply line as the far end would put it on the wire. Returns (bytes, kind).
-fn reply_line(cx: &Cx) -> (Vec<u8>, &'static str) {
+/// What the simulator knows about a line independently of the decoder under test:
+/// `Some(Some(m))` = it is the encoding of `m` (possibly in lower / mixed case, which the wire
+/// format allows), `Some(None)` = it is certainly not a frame, `None` = no independent knowledge.
+type Known = Option<Option<Message<'static>>>;
+
+/// Lower-cases (or randomly mixes the case of) the hex digits of a line.
+pub fn recase(cx: &Cx, line: &mut [u8]) {
+    match cx.draw(4) {
+        0 | 1 => {}
+        2 => {
+            cx.probe("lower_case_hex_line");
+            line.make_ascii_lowercase();
+        }
+        _ => {
+            cx.probe("mixed_case_hex_line");
+            for b in line.iter_mut() {
+                if cx.chance(1, 2) {
+                    b.make_ascii_lowercase();
+                }
+            }
+        }
+    }
+}
+
+fn reply_line(cx: &Cx) -> (Vec<u8>, &'static str, Known) {
+    if cx.chance(1, 16) {
+        // a blank line in front of whatever follows: a line of its own, and not a frame
+        cx.probe("blank_reply_line");
+        let l: &[u8] = *cx.pick(&[&b"\r\n"[..], &b"\n"[..], &b" \r\n"[..], &b"\t\r\n"[..], &b"\r\r\n"[..]]);
+        return (l.to_vec(), "blank", Some(None));
+    }
     if cx.chance(1, 16) {
         // the far end stops in the middle of its line (no LF ever arrives)
         let mut l = Frame::from(Message::ReportState(gens::address(cx), gens::ALL_STATES[cx.draw(13) as usize])).to_bytes_with_newline();
@@ -91,7 +121,7 @@ fn reply_line(cx: &Cx) -> (Vec<u8>, &'static str) {
         if l.ends_with(b"\n") {
             l.pop();
         }
-        return (l, "partial-line");
+        return (l, "partial-line", None);
     }
     match cx.draw(10) {
         0..=3 => {
@@ -100,9 +130,19 @@ fn reply_line(cx: &Cx) -> (Vec<u8>, &'static str) {
                 1 => Message::AckOperation(gens::address(cx), gens::ALL_OPS[cx.draw(6) as usize]),
                 _ => any_message(cx),
             };
-            (Frame::from(m).to_bytes_with_newline(), "known")
+            let mut l = Frame::from(m.clone()).to_bytes_with_newline();
+            recase(cx, &mut l);
+            // what the bus must hand back is the decoding of the frame, i.e. the message as it
+            // survives the frame (a 0/1-byte SendData comes back as Unknown: C05's business)
+            let back = to_static(&Message::from(Frame::from(m)));
+            (l, "known", Some(Some(back)))
         }
-        4 => (gens::unknown_frame(cx).to_bytes_with_newline(), "unknown"),
+        4 => {
+            let f = gens::unknown_frame(cx);
+            let mut l = f.to_bytes_with_newline();
+            recase(cx, &mut l);
+            (l, "unknown", Some(Some(Message::Unknown(f))))
+        }
         5 => {
             let n = cx.draw(20) as usize;
             let mut g = cx.bytes(n);
@@ -112,21 +152,21 @@ fn reply_line(cx: &Cx) -> (Vec<u8>, &'static str) {
                 }
             }
             g.extend_from_slice(b"\r\n");
-            (g, "malformed")
+            (g, "malformed", None)
         }
         6 => {
             let mut l = Frame::from(Message::ReportState(gens::address(cx), State::Unconfigured)).to_bytes_with_newline();
             let p = l.len() - 3;
             l[p] = if l[p] == b'0' { b'1' } else { b'0' };
-            (l, "bad-checksum")
+            (l, "bad-checksum", Some(None))
         }
         7 => {
             let mut l = Frame::from(Message::ReportState(gens::address(cx), State::Unconfigured)).to_bytes_with_newline();
             l[2] = b'3';
-            (l, "wrong-length")
+            (l, "wrong-length", Some(None))
         }
-        8 => (vec![], "empty-timeout"),
-        _ => (vec![], "empty-eof"),
+        8 => (vec![], "empty-timeout", None),
+        _ => (vec![], "empty-eof", None),
     }
 }
 
@@ -209,7 +249,7 @@ fn run_plan(cx: &Cx, plan: &[StepPlan], eof: bool, benign: (bool, u64, bool)) ->
 }
 
 /// Judges one step against the property, from the port's log only.
-fn judge_step(cx: &Cx, i: usize, st: &StepPlan, lg: &StepLog, eof: bool) {
+fn judge_step(cx: &Cx, i: usize, st: &StepPlan, lg: &StepLog, eof: bool, known: &[(Vec<u8>, Option<Message<'static>>)]) {
     let m = &st.m;
     let want_bytes = Frame::from(m.clone()).to_bytes_with_newline();
     let due = reply_due(m);
@@ -276,7 +316,15 @@ fn judge_step(cx: &Cx, i: usize, st: &StepPlan, lg: &StepLog, eof: bool) {
     }
     // A line cut short by end-of-stream is still "the line" (C15: up to the first LF or the end);
     // a line cut short by a read timeout is a read failure.
-    let want = if complete || eof { expected_reply(line) } else { None };
+    let want = if complete || eof {
+        match known.iter().find(|(l, _)| &l[..] == line) {
+            // the simulator wrote this very line and knows what it is, whatever the decoder says
+            Some((_, k)) => k.clone(),
+            None => expected_reply(line),
+        }
+    } else {
+        None
+    };
     match (&lg.result, &want) {
         (Ok(Some(got)), Some(w)) if got == w => {}
         (Err(_), None) => {}
@@ -310,6 +358,7 @@ impl Scenario for C16 {
         let nsteps = 1 + cx.draw(5) as usize;
         let eof = cx.chance(1, 4);
         let mut plan: Vec<StepPlan> = Vec::new();
+        let mut known: Vec<(Vec<u8>, Option<Message<'static>>)> = Vec::new();
         for k in 0..nsteps {
             let looks_like_hello = cx.chance(1, 40);
             let m: Message<'static> = if looks_like_hello {
@@ -319,7 +368,10 @@ impl Scenario for C16 {
                 any_message(cx)
             };
             let due = reply_due(&m);
-            let (mut line, kind) = if due || cx.chance(1, 8) { reply_line(cx) } else { (vec![], "none") };
+            let (mut line, kind, know) = if due || cx.chance(1, 8) { reply_line(cx) } else { (vec![], "none", None) };
+            if let Some(k) = know {
+                known.push((line.clone(), k));
+            }
             if !line.is_empty() && cx.chance(1, 2) {
                 line.extend_from_slice(SENTINEL);
             }
@@ -345,7 +397,7 @@ impl Scenario for C16 {
             return Ok(()); // the bus could not even be built (C20's business): no verdict
         }
         for (i, (st, lg)) in plan.iter().zip(logs.iter()).enumerate() {
-            judge_step(cx, i, st, lg, eof);
+            judge_step(cx, i, st, lg, eof, &known);
             cx.verdict()?;
             if lg.result.is_err() && i + 1 < plan.len() {
                 cx.probe("step_follows_a_failed_step");
@@ -374,7 +426,7 @@ impl Scenario for C16 {
             }
             cx.probe("fault_at_each_op_index");
             for (i, (st, lg)) in p2.iter().zip(lj.iter()).enumerate() {
-                judge_step(cx, i, st, lg, eof);
+                judge_step(cx, i, st, lg, eof, &known);
             }
             cx.verdict()?;
             j += step;
@@ -667,8 +719,17 @@ impl Scenario for C20 {
         let want_kind = crate::port::ERR_KINDS[dev.fail_kind];
         dev.timeout = Duration::from_millis(*cx.pick(&[1u64, 0, 5000, 10000, 77]));
         let prior_timeout = dev.timeout;
-        let caller_timeout = Duration::from_millis(*cx.pick(&[5000u64, 1, 250, 10_000, 60_000, 0]));
-        cx.event("case", &(prior, entry, fail, caller_timeout.as_millis() as u64));
+        // the caller's value: whole milliseconds mostly, but also sub-millisecond, odd and huge ones
+        let caller_timeout = match cx.draw(10) {
+            0 => Duration::from_micros(1302),
+            1 => Duration::from_micros(900),
+            2 => Duration::from_nanos(1),
+            3 => Duration::MAX,
+            4 => Duration::new(u64::MAX / 1000, 999_999_999),
+            5 => Duration::from_nanos(1 + cx.draw(5_000_000_000)),
+            _ => Duration::from_millis(*cx.pick(&[5000u64, 1, 250, 10_000, 60_000, 0])),
+        };
+        cx.event("case", &(prior, entry, fail, caller_timeout.as_nanos()));
         cx.note(|| format!("prior {prior:?}, entry {}, failure at {fail:?}", ["configure_port", "SerialSignBus::try_new", "Odk::try_new"][entry as usize]));
         cx.set_nontrivial();
         cx.probe(&format!("entry{entry}:{fail:?}"));
